@@ -90,6 +90,22 @@ def _raise_problem_nodes(f, cfg, cg):
     return [n for n, c in _calls_of(f, cfg, cg, "_problems.py::raise_problem")]
 
 
+def formatter_funcs(repo: Repo):
+    """format_code and the helpers of _format.py it delegates to with `return helper(<text>, ...)` (the text parameter handed
+    through as first argument): the failure branches of the format-command may live in such a helper."""
+    f = repo.func("_format.py::format_code")
+    out = [f]
+    if not f.params:
+        return out
+    for r in [x for x in body_nodes(f.node) if isinstance(x, ast.Return) and isinstance(x.value, ast.Call) and isinstance(x.value.func, ast.Name)]:
+        c = r.value
+        if c.args and isinstance(c.args[0], ast.Name) and c.args[0].id == f.params[0]:
+            t = repo.resolve_name(f.module, c.func.id)
+            if t and t[0] == "func" and t[1].module is f.module and t[1] not in out:
+                out.append(t[1])
+    return out
+
+
 def fmt_degrade(repo: Repo, rep):
     rep.rule(
         "R-FMT-DEGRADE",
@@ -97,12 +113,34 @@ def fmt_degrade(repo: Repo, rep):
         "raise_problem and returns the unformatted parameter; no exception leaves a handler; format_str is called inside a catch-all try; both drivers reach "
         "report_problems on the paths that write",
     )
-    f = repo.func("_format.py::format_code")
-    cfg = cfg_of(f)
     cg = callgraph(repo)
+    n_handlers = n_branches = n_fs = 0
+    for f in formatter_funcs(repo):
+        a, b, c = _fmt_degrade_in(repo, rep, f, cg)
+        n_handlers += a
+        n_branches += b
+        n_fs += c
+    rep.floor("R-FMT-DEGRADE", "exception handlers in format_code", n_handlers, 2)
+    rep.floor("R-FMT-DEGRADE", "failure branches", n_branches, 3)
+    rep.floor("R-FMT-DEGRADE", "format_str call sites", n_fs, 1)
+    # drivers report problems
+    for key in ("pytest_plugin.py::pytest_sessionfinish", "testing/_example.py::Example.run_inline"):
+        d = repo.func(key)
+        dcfg = cfg_of(d)
+        fixes = _calls_of(d, dcfg, cg, "_rewrite_code.py::ChangeRecorder.fix_all")
+        reps = [n for n, c in _calls_of(d, dcfg, cg, "_problems.py::report_problems")]
+        for n, c in fixes:
+            if reps and (nodes_dominate(dcfg, reps, n) or must_reach(dcfg, n, reps, [dcfg.ret], skip_labels=("exc",))):
+                rep.ok("R-FMT-DEGRADE", d, c, "report_problems on the writing path")
+            else:
+                rep.violation("R-FMT-DEGRADE", d, c, f"{d.qualname} writes files on a path that never calls report_problems(): formatter failures stay invisible", construct="noreport")
+
+
+def _fmt_degrade_in(repo: Repo, rep, f, cg):
+    cfg = cfg_of(f)
     if not f.params:
-        rep.undecided("R-FMT-DEGRADE", "format_code has no parameter")
-        return
+        rep.undecided("R-FMT-DEGRADE", f"{f.qualname} has no parameter")
+        return 0, 0, 0
     text = f.params[0]
     rp = _raise_problem_nodes(f, cfg, cg)
 
@@ -110,7 +148,6 @@ def fmt_degrade(repo: Repo, rep):
         return n.kind == "stmt" and isinstance(n.ast, ast.Return) and isinstance(n.ast.value, ast.Name) and n.ast.value.id == text and not defs_of(cfg, text)
 
     handlers = [n for n in cfg.live if n.kind == "handler"]
-    rep.floor("R-FMT-DEGRADE", "exception handlers in format_code", len(handlers), 2)
     branches = [(h, [b for b, _ in h.succ], "handler `" + h.text() + "`") for h in handlers]
     for c in cfg.conds():
         e = c.ast
@@ -118,7 +155,6 @@ def fmt_degrade(repo: Repo, rep):
             lab = "T" if isinstance(e.ops[0], (ast.NotEq, ast.Gt)) else "F" if isinstance(e.ops[0], ast.Eq) else None
             if lab:
                 branches.append((c, [b for b, l in c.succ if l == lab], "non-zero exit status"))
-    rep.floor("R-FMT-DEGRADE", "failure branches", len(branches), 3)
     for hn, starts, label in branches:
         region = reach(cfg, starts)
         rets = [n for n in region if n.kind == "stmt" and isinstance(n.ast, ast.Return)]
@@ -145,7 +181,6 @@ def fmt_degrade(repo: Repo, rep):
             rep.ok("R-FMT-DEGRADE", f, hn.ast, f"{label}: raise_problem + return {text}")
     # format_str inside a catch-all try
     fs = [(n, c) for n in cfg.live for c in node_calls(n) if norm(c.func).endswith("format_str")]
-    rep.floor("R-FMT-DEGRADE", "format_str call sites", len(fs), 1)
     for n, c in fs:
         hs = [b for b, l in n.succ if l == "exc"]
         caught = False
@@ -160,17 +195,7 @@ def fmt_degrade(repo: Repo, rep):
             rep.ok("R-FMT-DEGRADE", f, c, "format_str guarded by a catch-all handler")
         else:
             rep.violation("R-FMT-DEGRADE", f, c, "an exception of the formatter is not caught: a formatter crash aborts the rewrite", construct="format_str-unguarded")
-    # drivers report problems
-    for key in ("pytest_plugin.py::pytest_sessionfinish", "testing/_example.py::Example.run_inline"):
-        d = repo.func(key)
-        dcfg = cfg_of(d)
-        fixes = _calls_of(d, dcfg, cg, "_rewrite_code.py::ChangeRecorder.fix_all")
-        reps = [n for n, c in _calls_of(d, dcfg, cg, "_problems.py::report_problems")]
-        for n, c in fixes:
-            if reps and (nodes_dominate(dcfg, reps, n) or must_reach(dcfg, n, reps, [dcfg.ret], skip_labels=("exc",))):
-                rep.ok("R-FMT-DEGRADE", d, c, "report_problems on the writing path")
-            else:
-                rep.violation("R-FMT-DEGRADE", d, c, f"{d.qualname} writes files on a path that never calls report_problems(): formatter failures stay invisible", construct="noreport")
+    return len(handlers), len(branches), len(fs)
 
 
 def fmt_taint(repo: Repo, rep):
@@ -179,12 +204,9 @@ def fmt_taint(repo: Repo, rep):
         "the output of a configured format-command (an arbitrary external program) is returned by format_code only after a validity check - "
         "ast.parse/compile of it inside a try whose handler degrades like R-FMT-DEGRADE; black's format_str on a module is trusted (A3)",
     )
-    f = repo.func("_format.py::format_code")
-    cfg = cfg_of(f)
     cg = callgraph(repo)
-    rp = _raise_problem_nodes(f, cfg, cg)
     n_src = 0
-    for r in cfg.stmts(ast.Return):
+    for f, cfg, r in [(g, gc, r) for g in formatter_funcs(repo) for gc in [cfg_of(g)] for r in gc.stmts(ast.Return)]:
         v = r.ast.value
         if v is None:
             continue
